@@ -1,7 +1,9 @@
 PROP = {
     "regen_files": ["GenGuards.v", "GenSigs.v"],
     "num": 11,
-    "runs": [{"tag": "c11", "bin": "c11"},
+    "runs": [
+        # the same caller program as c12call: boxed nested arrays flattened / unflattened with method syntax (zero-sized rows too)
+        {"tag": "c11call", "bin": "gcall", "no_default_features": True, "args": ["--prop", "C12"], "model": False},{"tag": "c11", "bin": "c11"},
              # optimised build of the same cases: no debug assertions, no overflow checks, inlined unsafe paths
              {"tag": "c11rel", "bin": "c11", "profile": "release", "tiers": ["thorough"]},
              # the reference forms called with method syntax from a separately compiled caller that is generic
